@@ -19,5 +19,12 @@ code=$?
 echo "mutant=$name check=$id exit=$code"
 grep -E "^(VIOLATION|KNOWN-FINDING|  kind=|INFRA)" /tmp/mut-$name.$id.log | head -8
 grep -A1 "  kind=" /tmp/mut-$name.$id.log | grep -v "kind=" | cut -c1-400 | head -4
+python3 - "$d/.ev/$id.json" <<'PY' 2>/dev/null
+import json,sys
+try:
+    c=json.load(open(sys.argv[1]))["coverage"]; f=c.get("fault_kinds_fired",{})
+    print("  reach: library goroutines=%s channel ops=%s env runs=%s" % (f.get("goroutines_started_by_the_library","-"), f.get("channel_operations_inside_the_library","-"), f.get("clock_jump_or_random_seed_runs","-")))
+except Exception as e: pass
+PY
 rm -rf $d
 exit $code
